@@ -1,6 +1,7 @@
 package main
 
 import (
+	"runtime"
 	"fmt"
 	"os"
 	"sort"
@@ -158,7 +159,7 @@ func runC19(res *lib.Result, tier string, seed int64, args []string) error {
 	if tier == "thorough" {
 		nWs = 3000
 	}
-	res.Rule = "workspaces of 1-3 generated files (top-level locals incl. multi-name and repeated names, local / global functions by statement and by assignment, tables with members declared by assignment, function statement, method statement and constructor, globals assigned in nested blocks and functions, annotation classes; every 8th workspace large enough to exceed the 200-symbol cap); the real textDocument/documentSymbol answer must (a) consist only of well-formed ranges inside the file and (b) contain, for every declaration required by the Lean spec `Outline.required` run on the model parser's AST, an entry of that name whose range contains the declaring identifier; workspace/symbol queried with the exact name of every required global / function must return an entry of that name in that file located at the declaring identifier; non-trivial = the file has at least one required declaration; distinct by file text"
+	res.Rule = "workspaces of 1-3 generated files (top-level locals incl. multi-name and repeated names, local / global functions by statement and by assignment, tables with members declared by assignment, function statement, method statement and constructor, globals assigned in nested blocks and functions, annotation classes; every 8th workspace large enough to exceed the 200-symbol cap, every 8th one made of more small files than the symbol collector has workers); the real textDocument/documentSymbol answer must (a) consist only of well-formed ranges inside the file and (b) contain, for every declaration required by the Lean spec `Outline.required` run on the model parser's AST, an entry of that name whose range contains the declaring identifier; workspace/symbol queried with the exact name of every required global / function must return an entry of that name in that file located at the declaring identifier; non-trivial = the file has at least one required declaration; distinct by file text"
 	drv, err := lib.StartDriver()
 	if err != nil {
 		return err
@@ -172,7 +173,15 @@ func runC19(res *lib.Result, tier string, seed int64, args []string) error {
 		if wi%8 == 7 {
 			nf = 12 // > 200 symbols in the workspace
 		}
+		many := wi%8 == 3 // more files than the symbol collector has workers (NumCPU+2): the refill path is used
+		if many {
+			nf = runtime.NumCPU() + 6 + r.Intn(8)
+		}
 		for fi := 0; fi < nf; fi++ {
+			if many {
+				files[fmt.Sprintf("f%d.lua", fi)] = fmt.Sprintf("function wsfun%dx%d(a)\n  return a\nend\nwsglob%dx%d = %d\n", wi, fi, wi, fi, fi)
+				continue
+			}
 			src := genC19File(r.Fork(uint64(fi)), fmt.Sprintf("x%d", fi))
 			if wi%8 == 7 {
 				for k := 0; k < 3; k++ {
